@@ -1,5 +1,5 @@
-(* Refutation witnesses for the code AS IT IS at the pinned commit (gm = GLocal, get_node with
-   one-level redirects); outside the cone of Props.v. *)
+(* Refutation witnesses for the code as it WAS before the two repairs in /repo (4d38dc0: group = len(self);
+   52826ef: get_node resolves redirects through the whole parent chain); outside the cone of Props.v. *)
 From Coq Require Import List Arith Bool NArith.
 From PL.C29 Require Import ModelClauseDB.
 Import ListNotations.
@@ -19,15 +19,30 @@ Proof.
   - vm_compute. repeat constructor; simpl; intuition discriminate.
 Qed.
 
-(* 2. redirects are looked up one level at a time: a call node of the grandparent, seen through a
-      grandchild that extends a predicate its parent had already extended, resolves to the PARENT's
-      definition, not to the grandchild's. *)
+(* 2. (REPAIRED in /repo by commit 52826ef; ModelClauseDB.get_node is the repaired lookup.)  The lookup
+      before the repair applied only the youngest database's own redirects and then delegated to the
+      parent: a call node of the grandparent, seen through a grandchild that extends a predicate its
+      parent had already extended, resolved to the PARENT's definition, not to the grandchild's.  With
+      the chained lookup it resolves correctly (Props.v: C29_redirect_sound, for every history). *)
+Fixpoint get_node_one_level (c : chain) (i : nat) : node :=
+  match c with
+  | [] => NEmpty
+  | l :: p => let i' := redir_get (l_redir l) i in
+              if i' <? size p then get_node_one_level p i' else nth (i' - size p) (l_nodes l) NEmpty
+  end.
+
 Definition nestedOps : list op :=
   [ OAdd (SClause 7%N [] (BCall 5%N []) 0);     (* r :- p.   (p undefined yet: placeholder node 0, call node 1) *)
     OExtend; OAdd (SFact 5%N [] None);           (* child:      p.  *)
     OExtend; OAdd (SFact 5%N [] (Some 1%N)) ].   (* grandchild: 0.2::p. *)
 
-Theorem C29_nested_redirect_refuted :
-  exists ops i, call_resolves (run GLocal ops root0) i = false
-             /\ call_resolves (parent_of (run GLocal ops root0)) i = true.
-Proof. exists nestedOps, 1. split; vm_compute; reflexivity. Qed.
+Theorem C29_nested_redirect_refuted_for_one_level_lookup :
+  exists ops i f a dn h,
+    let c := run GGlobal ops root0 in
+    get_node c i = NCall (FU f) a dn /\ get_head c (FU f, length a) = Some h /\
+    define_children (get_node_one_level c dn) <> define_children (get_node_one_level c h) /\
+    define_children (get_node c dn) = define_children (get_node c h) /\
+    call_resolves c i = true.
+Proof.
+  exists nestedOps, 1, 5%N, [], 0, 7. vm_compute. repeat split; try reflexivity. discriminate.
+Qed.
